@@ -27,7 +27,7 @@ CHECKS = {
         bin="run_chan", build="external", pkg="run_chan", level="fault_enumeration",
         quick=dict(runs=320, wall=100), thorough=dict(runs=30000, wall=1500),
         rule="one evaluation = one seeded schedule (with cuts and injected write failures) in which BOTH databases are forked and both channels reloaded after EVERY event (every crash point of that schedule at call granularity); each reload is compared with the pre-crash in-memory durable state, the reference model after 'drop what no signature covered', the released-revocation set, and a sample of forks is resumed through resync to wind-down; non-trivial = a fault fired and an HTLC locked in afterwards; distinct = distinct trace hash",
-        expected_probes=["probe_retransmit_sig", "probe_retransmit_rev"],
+        expected_probes=["probe_retransmit_sig", "probe_retransmit_rev", "probe_medium_htlc_arm", "probe_commitment_with_60+_htlc_outputs"],
         real_vs_stub=CHANSIM_STUB, assumptions=CHAN_ASSUME,
         determinism="call-driven engine: exact replay",
     ),
@@ -35,7 +35,7 @@ CHECKS = {
         bin="run_chan", build="external", pkg="run_chan", level="exploration",
         quick=dict(runs=1200, wall=75), thorough=dict(runs=150000, wall=1200),
         rule="one evaluation = one seeded schedule with 1-4 connection cuts (arbitrary delivered prefix per direction, incl. cuts during resynchronisation, with/without data-loss-protect fields), both sides reloading from disk; retransmissions are compared message by message with what the reference model says the peer is missing; non-trivial = a cut fired and an HTLC locked in afterwards; distinct = distinct trace hash",
-        expected_probes=["probe_retransmit_sig", "probe_retransmit_rev", "probe_retransmit_rev_then_sig", "probe_retransmit_sig_then_rev", "probe_sync_sign_inside", "probe_sync_without_dlp", "fault_cut_during_sync"],
+        expected_probes=["probe_retransmit_sig", "probe_retransmit_rev", "probe_retransmit_rev_then_sig", "probe_retransmit_sig_then_rev", "probe_sync_sign_inside", "probe_sync_without_dlp", "fault_cut_during_sync", "probe_medium_htlc_arm", "probe_commitment_with_60+_htlc_outputs"],
         real_vs_stub=CHANSIM_STUB, assumptions=CHAN_ASSUME,
         determinism="call-driven engine: exact replay",
     ),
